@@ -84,6 +84,18 @@ func drawLen(src *choice.Source, ct pb.CompressionType, big bool) (n int, class 
 	if ct == pb.Snappy {
 		lo, hi = -400, 8
 	}
+	// past a block boundary: a few bytes, or a remainder that makes the last block
+	// (data + 4 byte checksum) a power of two long - then a single flipped bit of
+	// a length field can land on another whole number of blocks - or anything near
+	rem := func() int {
+		switch src.Weighted([]int{4, 3, 3}) {
+		case 0:
+			return src.Range(lo, hi)
+		case 1:
+			return (4 << uint(src.Intn(9))) - 4 // 0, 4, 12, 28, ..., 1020
+		}
+		return src.Range(-70, 1100)
+	}
 	switch class {
 	case 0:
 		n = src.Range(2, 64)
@@ -94,11 +106,11 @@ func drawLen(src *choice.Source, ct pb.CompressionType, big bool) (n int, class 
 	case 3:
 		n = src.Range(65, 5000)
 	case 4:
-		n = blockSize + src.Range(lo, hi)
+		n = blockSize + rem()
 	case 5:
-		n = 2*blockSize + src.Range(2*lo, hi)
+		n = 2*blockSize + rem()
 	case 6:
-		n = 3*blockSize + src.Range(3*lo, hi)
+		n = 3*blockSize + rem()
 	default:
 		n = src.Range(blockSize/2, 3*blockSize)
 	}
